@@ -13,7 +13,9 @@ LEVEL_TEXT = ('nnx.vmap with StateAxes assignments of Variable types / path filt
               'inside vmap with split_rngs; nnx.scan with Carry / axis / broadcast state, length 1-4, reverse, carry-only and carry+xs forms, '
               'stacked layers; nnx.grad / value_and_grad with argnums and DiffState filters, has_aux; each compared with a NumPy/JAX '
               'reference over raw arrays and with the post-call state the reference computation leaves (stacked per-index updates, final '
-              'carry, forward side effects applied once); inconsistent aliasing across arguments must be rejected.')
+              'carry, forward side effects applied once); inconsistent aliasing across arguments must be rejected.'
+              ' Further streams: negative axes, call histories with rejected calls on one grad object, NNX objects of'
+              ' every kind in the scan carry, argnums in any order and as negative positions.')
 LEVEL_NOTE = 'Reference = the cell formula written over raw arrays + jax.grad (trusted); float32 same-program tolerance.'
 TECHNIQUE = 'runtime monitoring: shadow-model loop/stack/autodiff reference on the real nnx.vmap / nnx.scan / nnx.grad'
 RULE = ('case = (transform, axis assignment per Variable group, sizes, in/out axes, reverse, argnums/DiffState filter, has_aux). distinct = '
